@@ -125,6 +125,10 @@ pub fn named_basis(params: &RangeParameters<RistrettoPoint>, spec: &Value, name:
     }
 }
 
+thread_local! {
+    static PARAMS_POOL: std::cell::RefCell<Vec<((usize, usize, usize), RangeParameters<RistrettoPoint>)>> = std::cell::RefCell::new(Vec::new());
+}
+
 /// Builds one batch member. cfg keys: m, cap, seeded, seed_name, name_idx, values ("sym" | list of strings),
 /// promises (list: null | "sym" | "eq" | number-string), witness_tamper, label.
 fn build_member(idx: usize, n: usize, x: usize, cfg: &Value, picker: &mut Picker, transcripts: &mut Vec<Transcript>) -> Member {
@@ -147,7 +151,23 @@ fn build_member(idx: usize, n: usize, x: usize, cfg: &Value, picker: &mut Picker
             pc_gens.g_base_compressed_vec[1] = pc_gens.g_base_vec[1].compress();
         }
     }
-    let params = RangeParameters::init(n, cap, pc_gens).expect("RangeParameters::init");
+    // share_params: ONE parameters object per (bit length, capacity, degree) for the whole process — later members of the batch and later
+    // steps of a `history` scenario get CLONES of the object the first user built (state kept inside or behind a parameters object is shared
+    // by its clones); without the option every member builds its own
+    let plain_gens = !cfg["degenerate_g"].as_bool().unwrap_or(false) && cfg["g1_shift"].as_u64().unwrap_or(0) == 0;
+    let params = if cfg["share_params"].as_bool().unwrap_or(false) && plain_gens {
+        let found = PARAMS_POOL.with(|pool| pool.borrow().iter().find(|(k, _)| *k == (n, cap, x)).map(|(_, p)| p.clone()));
+        match found {
+            Some(p) => p,
+            None => {
+                let p = RangeParameters::init(n, cap, pc_gens).expect("RangeParameters::init");
+                PARAMS_POOL.with(|pool| pool.borrow_mut().push(((n, cap, x), p.clone())));
+                p
+            },
+        }
+    } else {
+        RangeParameters::init(n, cap, pc_gens).expect("RangeParameters::init")
+    };
     for r in [0u64, 1, n as u64, m as u64, x as u64, cap as u64, 2, 3, 4, 5, 6, 8, 16, 32, 64] {
         if !picker.used.contains(&r) {
             picker.used.push(r);
